@@ -1,7 +1,7 @@
 (** C18 — property theorems (statements only; proofs are in C18/Proofs.v).
 
     Model: C18/Model.v (codec, expect/send/relay states, Pipe, the readiness
-    loop of TcpSession), of the tree after the two fix: commits. *)
+    loop of TcpSession), of the tree after the fix: commits. *)
 From Coq Require Import List Arith NArith Lia Bool.
 From SV Require Import Common.Buf C18.Gen C18.Model C18.Proofs.
 Import ListNotations.
@@ -150,16 +150,36 @@ Theorem pipe_exact_streams :
     is_pipe e' /\ front_stream e' = front_stream e /\ back_stream e' = back_stream e.
 Proof. exact ready_inner_same. Qed.
 
-(** eof_after_drain is REFUTED for the client side (open finding): the client
-    sends 5 bytes and closes; the pipe reads them and closes at once *)
-Theorem eof_after_drain_refuted :
-  exists p s p' s',
-    pipe_readable p s = (p', s', Close) /\ ieof s = true /\ ierr s = false /\
-    bst p = CNormal /\ avail_data (fbuf p') = 5.
+(** eof_after_drain (after fix: the client's end-of-stream no longer closes the
+    pipe at once).  Whenever reading a peer's stream — data, end-of-stream or
+    nothing — makes the pipe close without a socket error, every byte still
+    buffered is undeliverable: its destination is already closed for writing.
+    In particular the client's FIN with bytes pending toward a live backend
+    does not close the session. *)
+Theorem eof_after_drain :
+  forall p s p' s',
+    ierr s = false ->
+    (pipe_readable p s = (p', s', Close) -> drained_or_undeliverable p') /\
+    (pipe_backend_readable p s = (p', s', Close) -> drained_or_undeliverable p').
 Proof.
-  exists (pipe_new 32 true), (mksock [104;101;108;108;111]%N true false None false []).
-  eexists. eexists. vm_compute. repeat split; reflexivity.
+  intros p s p' s' NE. split; intros H.
+  - eapply pipe_readable_close_drained; eassumption.
+  - eapply pipe_backend_readable_close_drained; eassumption.
 Qed.
+
+(** a HUP on the client side closes only when no client byte is pending
+    (nothing buffered, nothing unread), or there is no backend to give it to *)
+Theorem front_hup_after_drain :
+  forall p p', pipe_frontend_hup p = (p', Close) ->
+    (avail_data (fbuf p) = 0 /\ rr (fe p) = false) \/ has_back p = false.
+Proof. exact pipe_frontend_hup_close. Qed.
+
+(** the former witness (5 bytes then FIN: closed with the 5 bytes buffered) now continues *)
+Example eof_after_drain_nonvacuous :
+  exists p' s',
+    pipe_readable (pipe_new 32 true) (mksock [104;101;108;108;111]%N true false None false []) = (p', s', Continue)
+    /\ avail_data (fbuf p') = 5 /\ fst_ p' = CWriteOpen /\ rw (bi p') = true.
+Proof. eexists. eexists. vm_compute. repeat split; reflexivity. Qed.
 
 (* ---------------- non-vacuity ---------------- *)
 
